@@ -42,6 +42,7 @@ def main():
     props = None
     tier = "quick"
     skip = False
+    confirm_only = False
     i = 1
     while i < len(a):
         if a[i] == "--props":
@@ -52,6 +53,8 @@ def main():
             i += 1
         elif a[i] == "--skip-confirm":
             skip = True
+        elif a[i] == "--confirm-only":
+            confirm_only = True
         i += 1
     meta = json.load(open(os.path.join(seed, "meta.json")))
     props = props or [meta["property"]]
@@ -59,7 +62,7 @@ def main():
     res = {"seed": os.path.basename(seed), "property": meta["property"], "time": time.strftime("%Y-%m-%d %H:%M:%S")}
     rc, _ = sh(["git", "status", "--porcelain"], cwd=REPO)
     rc, out = sh(["git", "diff", "--quiet"], cwd=REPO)
-    if rc != 0:
+    if rc != 0 and not confirm_only:
         print("/repo has uncommitted changes; refusing")
         return 2
     if not skip:
@@ -110,8 +113,14 @@ def main():
             shutil.rmtree(wt, ignore_errors=True)
         res["confirmed"] = bool(res.get("demo_passes_unchanged") and res.get("patch_applies") and res.get("suite_with_patch", {}).get("rc") == 0 and res.get("suite_with_patch", {}).get("passed", 0) >= 280 and res.get("demo_fails_with_patch"))
     # (3) our checks against it
-    rc, out = sh(["git", "apply", patch], cwd=REPO)
-    if rc != 0:
+    if confirm_only:
+        rc, out = 1, "confirm-only"
+        res["checks_skipped"] = True
+    else:
+        rc, out = sh(["git", "apply", patch], cwd=REPO)
+    if confirm_only:
+        pass
+    elif rc != 0:
         res["apply_to_repo_failed"] = out[-400:]
     else:
         try:
